@@ -335,6 +335,39 @@ theorem platform_acquire_from_unambiguous :
     (mem_names_toCfg hcur) (mem_names_toCfg htgt) hres]
   exact ⟨rfl, rfl⟩
 
+/-- `onx_acquire_reads_device_level`: an `acquire-priv` step of an on-open / on-close list starts
+from the level the device IS in (the prompt is re-read), not from the driver's cached level: for
+every covered definition, every secret and map-order oracle, every level `m` the device may have
+moved to behind the driver's back (its prompt accepted by no other level), every step that acquires
+a level of the definition, and ANY two cache contents — stale, empty, accurate — the step ends
+with the device at that level having received exactly the tree path from `m`, and the two runs
+are indistinguishable. -/
+theorem onx_acquire_reads_device_level :
+    ∀ l ∈ loaded, isNetwork l.d = true → exemptTag c04Exempt l = none →
+    ∀ (secret : Bytes) (orc : Nat → Priv.Orders), (∀ t, (orc t).Valid) →
+    ∀ m ∈ l.d.levels, unambStart l.d m = true → ∀ tgt ∈ l.d.levels,
+    ∀ (r : String) (st : Step), onxAction r st = .acquire tgt.name →
+    ∀ (cache cache' : Bytes) (log : List (Bytes × Bytes)) (tick : Nat),
+      onxAcquire (toCfg l.d secret orc) r st ⟨⟨ofStr m.name, none, log⟩, cache, tick⟩
+        = onxAcquire (toCfg l.d secret orc) r st ⟨⟨ofStr m.name, none, log⟩, cache', tick⟩
+      ∧ (onxAcquire (toCfg l.d secret orc) r st ⟨⟨ofStr m.name, none, log⟩, cache, tick⟩).1 = none
+      ∧ (onxAcquire (toCfg l.d secret orc) r st ⟨⟨ofStr m.name, none, log⟩, cache, tick⟩).2.dev =
+          ⟨ofStr tgt.name, none, log ++ Priv.expectedLog (toCfg l.d secret orc)
+            (Priv.treePath (toCfg l.d secret orc).L (ofStr m.name) (ofStr tgt.name))⟩ := by
+  intro l hl hn hex secret orc ho m hm hu tgt htgt r st hst cache cache' log tick
+  obtain ⟨hd, htree⟩ := dom_toCfg l.d (c04_checks_hold l hl hn hex) secret orc ho
+  have run : ∀ ca : Bytes, onxAcquire (toCfg l.d secret orc) r st ⟨⟨ofStr m.name, none, log⟩, ca, tick⟩ =
+      (none, ⟨⟨ofStr tgt.name, none, log ++ Priv.expectedLog (toCfg l.d secret orc)
+          (Priv.treePath (toCfg l.d secret orc).L (ofStr m.name) (ofStr tgt.name))⟩, ofStr tgt.name,
+        tick + (Priv.treePath (toCfg l.d secret orc).L (ofStr m.name) (ofStr tgt.name)).length⟩) := by
+    intro ca
+    unfold onxAcquire
+    rw [hst]
+    exact Priv.C04.acquire_log_is_treePath hd htree ⟨⟨ofStr m.name, none, log⟩, ca, tick⟩ rfl
+      (mem_names_toCfg hm) (mem_names_toCfg htgt) (Or.inl hu)
+  rw [run cache, run cache']
+  exact ⟨rfl, rfl, rfl⟩
+
 /-- the hypotheses are met and the statement is not vacuous: a covered definition with at least four levels,
 an authenticated edge, a level with an unambiguous prompt (any cache) and a level whose prompt
 other levels accept too (needs the tracked level) -/
